@@ -580,6 +580,14 @@ def builtins(ck, F):
                     c = fc.call_at(bb2)
                     if c is not None and sfx(c.callee, "Rng::rnd"):
                         got[n] = ["rnd"]
+                    # the function passed by name: `self.evaluate_unary_number_function(f64::abs)`
+                    if c is not None and n not in got:
+                        for a in c.args:
+                            e_ = strip_expr(fc.expr(a))
+                            while e_[0] == "cast":
+                                e_ = strip_expr(e_[2])
+                            if e_[0] == "const" and "fn" in e_[1] and e_[1]["fn"].split("::")[-1] in ("abs", "floor"):
+                                got[n] = [e_[1]["fn"].split("::")[-1]]
         ck.require(got.get("Abs") == ["abs"] and got.get("Int") == ["floor"] and got.get("Rnd") == ["rnd"], "C02:BUILTIN:semantics",
                    "builtins", "ABS -> f64::abs, INT -> f64::floor, RND -> Rng::rnd", "builtin semantics are %s" % got, fc.span)
 
